@@ -81,7 +81,7 @@ theorem old_lookup_order_loses_everything :
     (s0.clients[1]?.map (·.loaded)) = some [] ∧ (s0.clients[1]?.map (·.toLoad)) = some [] ∧ s0.stored = [0, 1] := by
   decide
 
-/-! ### what the theorems above do NOT cover: a vacuum inside the open (finding F81)
+/-! ### what the theorems above do NOT cover: a vacuum inside the open (F81)
 
 `step` has no action that removes a version from `root/merged/`; `listed_stays_loadable` is a
 theorem about writers and openers only.  `s3db_vacuum` with a cutoff younger than a commit that
@@ -89,8 +89,9 @@ happened during the open does remove one.  Replayed on the model with that one e
 the opener has listed version 0, the writer commits version 1 (retiring 0) and vacuums 0 away,
 and the opener, which finds 0 in neither place, skips it and completes with nothing — although
 version 0 had been stored before it listed (`seen`).  C03's quantifier ("a committing writer")
-and C09's ("any connection opened afterwards") both stop short of this schedule; it is recorded
-as finding F81, not proved away. -/
+and C09's ("any connection opened afterwards") both stop short of this schedule; it was recorded
+first as finding F81; since repaired in `Open` (`relist_after_vacuum_recovers` below), while the
+theorems above still speak of writers and openers only. -/
 
 /-- `DeleteHistoricVersions` removing a retired version object -/
 def vacuumDeletes (s : Sys) (v : Vid) : Sys :=
@@ -106,6 +107,19 @@ theorem open_racing_commit_and_vacuum_sees_nothing :
     (s1.clients[1]?.map (·.seen)) = some [0] ∧                          -- 0 was committed before the LIST
     (s2.clients[1]?.map (·.opening)) = some false ∧ (s2.clients[1]?.map (·.source)) = some [] ∧
     s2.bucket.current = [1] := by
+  decide
+
+/-- the repaired open (`openRelistsWhenSkipped`): something was skipped, so it lists again and,
+    the listing having changed, starts over — which on the model is a second `startOpen`.  It
+    finds version 1, which contains version 0: the opener sees what was committed before it began -/
+theorem relist_after_vacuum_recovers :
+    let s1 : Sys := run F (init [false, true])
+      [(0, .startCommit), (0, .step), (0, .step), (1, .startOpen), (1, .step),
+       (0, .startCommit), (0, .step), (0, .step), (0, .step), (0, .step)]
+    let s2 : Sys := run F (vacuumDeletes s1 0) [(1, .step), (1, .step), (1, .step), (1, .step)]
+    let s3 : Sys := run F s2 [(1, .startOpen), (1, .step), (1, .step), (1, .step)]   -- LIST {1}, GET current/1, complete
+    (s3.clients[1]?.map (·.source)) = some [1] ∧ ancB s3.vers 2 0 1 = true ∧
+    F.openRelistsWhenSkipped = true := by
   decide
 
 /-- the same schedule without the vacuum: the opener finds version 0 under `root/merged/` -/
